@@ -257,3 +257,23 @@ FUNCTIONS.update({
     props=['C07', 'C12'],
   ),
 })
+
+# ---------------------------------------------------------------------------- construction (C07)
+CLASSES.update({
+  'PoolPropsX': dict(extern=True, path=None, bases=[], fields={'min_watermark': 'int', 'max_watermark': 'int', 'max_queue_len': 'int'}),
+})
+
+FUNCTIONS.update({
+  # a new pool holds no connection: nothing lent, nothing cached, nobody waiting -- the accounting invariant holds
+  # for any sensible configuration (0 <= low watermark, 0 <= high watermark, 0 <= queue length)
+  'WatermarkPoolSink.__init__': dict(
+    file='scales/pool/watermark.py', cls='WatermarkPoolSink',
+    params={'next_provider': 'NextProvider', 'sink_properties': 'PoolPropsX', 'global_properties': 'any'}, returns='none',
+    requires=['allocated(sink_properties)', 'sink_properties.min_watermark >= 0', 'sink_properties.max_watermark >= 0', 'sink_properties.max_queue_len >= 0'],
+    ensures=['PoolInv(self)', 'self._current_size == 0', 'card(self.g_lent) == 0', 'len(self._cache) == 0', 'len(self._waiters) == 0'],
+    modifies=['*'], allocates=True, drop=['Varz', 'ROOT_LOG', 'endpoint'],
+    ghost=[{'after': 'self._current_size = 0', 'do': ['self.g_lent = set()']}],
+    literals={'set()': 'set[any]', 'deque()': 'deque[Channel]'},
+    props=['C07'],
+  ),
+})
